@@ -8,85 +8,100 @@
 (*   map.update(fut):   submit(func, fut) -> a new future, passed on at once*)
 (*   gather.update(f):  retain; result = await client.gather(f);           *)
 (*                      await self._emit(result); release                  *)
-(* The cluster finishes tasks in any order (TaskFinish).  Nothing orders   *)
-(* two gather.update calls that are in flight at the same time, so a       *)
-(* producer that does not await its emits (Await = FALSE) can see results  *)
-(* delivered in completion order (known finding F18); a producer that      *)
-(* awaits every emit -- all streamz sources do -- or a buffer() in front   *)
-(* of gather (Buffered) serialises the calls.                              *)
+(*                      [wait for the previous gather.update's turn]       *)
+(*                      await self._emit(result); pass the turn; release   *)
+(* The cluster finishes tasks in any order (TaskFinish).  gather passes    *)
+(* results on in the order in which its update was called (Turn; the       *)
+(* pinned tree had no such order: Turn = FALSE, finding F22).  Nothing     *)
+(* orders two scatter.update calls that are in flight at the same time,    *)
+(* so a producer that does not await its emits (Await = FALSE) can still   *)
+(* see results in another order than it emitted (F18); a     *)
+(* producer that awaits every emit -- all streamz sources do -- or a       *)
+(* buffer() in front of gather (Buffered) serialises the calls.            *)
 (***************************************************************************)
 EXTENDS Integers, Sequences, FiniteSets, TLC
 
-CONSTANTS NE, Await, Buffered, SyncCons
+CONSTANTS NE, Await, Buffered, SyncCons, Turn
 
 VARIABLES called, st, taskDone, delivered, busy, emitDone, rc, fired,
-          q      \* Buffered: the buffer's queue between map and gather
-vars == <<called, st, taskDone, delivered, busy, emitDone, rc, fired, q>>
+          q,     \* Buffered: the buffer's queue between map and gather
+          gq,    \* the elements in the order in which gather.update was called for them
+          passed \* the elements whose gather.update has passed the turn on (its emit to the sink has completed)
+vars == <<called, st, taskDone, delivered, busy, emitDone, rc, fired, q, gq, passed>>
 Elems == 1 .. NE
 
 Init == /\ called = 0 /\ st = [e \in Elems |-> "none"] /\ taskDone = [e \in Elems |-> FALSE]
         /\ delivered = <<>> /\ busy = {} /\ emitDone = [e \in Elems |-> FALSE]
-        /\ rc = [e \in Elems |-> 0] /\ fired = <<>> /\ q = <<>>
+        /\ rc = [e \in Elems |-> 0] /\ fired = <<>> /\ q = <<>> /\ gq = <<>> /\ passed = {}
 
 EmitCall(e) ==
     /\ e = called + 1 /\ e <= NE
     /\ Await => \A f \in 1 .. called : emitDone[f]
     /\ called' = e /\ st' = [st EXCEPT ![e] = "scattering"]
     /\ rc' = [rc EXCEPT ![e] = @ + 1]                          \* scatter.update retains
-    /\ UNCHANGED <<taskDone, delivered, busy, emitDone, fired, q>>
+    /\ UNCHANGED <<taskDone, delivered, busy, emitDone, fired, q, gq, passed>>
 
 \* client.scatter finished: the future travels through map (task submitted) into gather.update, which retains and waits
 ScatterDone(e) ==
     /\ st[e] = "scattering"
     /\ IF Buffered
        THEN \* the future is queued in the buffer; scatter's own reference is handed over to the buffer
-            /\ st' = [st EXCEPT ![e] = "queued"] /\ q' = Append(q, e) /\ rc' = rc
-       ELSE /\ st' = [st EXCEPT ![e] = "computing"] /\ q' = q
+            /\ st' = [st EXCEPT ![e] = "queued"] /\ q' = Append(q, e) /\ rc' = rc /\ gq' = gq
+       ELSE /\ st' = [st EXCEPT ![e] = "computing"] /\ q' = q /\ gq' = Append(gq, e)
             /\ rc' = [rc EXCEPT ![e] = @ + 1]                 \* gather.update retains
-    /\ UNCHANGED <<called, taskDone, delivered, busy, emitDone, fired>>
+    /\ UNCHANGED <<called, taskDone, delivered, busy, emitDone, fired, passed>>
 
 \* buffer.cb hands the head of its queue to gather.update and waits for it before taking the next one
 HandOver(e) ==
     /\ Buffered /\ q # <<>> /\ Head(q) = e
     /\ \A f \in Elems : st[f] \notin {"computing", "delivering"}
-    /\ q' = Tail(q) /\ st' = [st EXCEPT ![e] = "computing"]
+    /\ q' = Tail(q) /\ st' = [st EXCEPT ![e] = "computing"] /\ gq' = Append(gq, e)
     /\ rc' = [rc EXCEPT ![e] = @ + 1]
-    /\ UNCHANGED <<called, taskDone, delivered, busy, emitDone, fired>>
+    /\ UNCHANGED <<called, taskDone, delivered, busy, emitDone, fired, passed>>
 
 \* the cluster finishes the task(s) of element e -- in any order
 TaskFinish(e) ==
     /\ st[e] \in {"scattering", "queued", "computing"} /\ ~taskDone[e]
     /\ taskDone' = [taskDone EXCEPT ![e] = TRUE]
-    /\ UNCHANGED <<called, st, delivered, busy, emitDone, rc, fired, q>>
+    /\ UNCHANGED <<called, st, delivered, busy, emitDone, rc, fired, q, gq, passed>>
 
-\* client.gather returned: the result is emitted to the sink
+\* client.gather returned and every earlier call has passed its turn: the result is emitted to the sink
+EarlierCalls(e) == {gq[i] : i \in {i \in 1 .. Len(gq) : \E j \in 1 .. Len(gq) : gq[j] = e /\ i < j}}
 GatherDone(e) ==
     /\ st[e] = "computing" /\ taskDone[e]
+    /\ Turn => \A f \in EarlierCalls(e) : f \in passed
     /\ delivered' = Append(delivered, e)
     /\ busy' = IF SyncCons THEN busy ELSE busy \cup {e}
     /\ st' = [st EXCEPT ![e] = "delivering"]
-    /\ UNCHANGED <<called, taskDone, emitDone, rc, fired, q>>
+    /\ UNCHANGED <<called, taskDone, emitDone, rc, fired, q, gq, passed>>
 
 ConsumerDone(e) == /\ e \in busy /\ busy' = busy \ {e}
-                   /\ UNCHANGED <<called, st, taskDone, delivered, emitDone, rc, fired, q>>
+                   /\ UNCHANGED <<called, st, taskDone, delivered, emitDone, rc, fired, q, gq, passed>>
 
-\* gather releases, its awaitable completes, scatter releases
+\* the sink has finished with the result: gather passes the turn on (and releases; counted in Release) ...
+PassTurn(e) ==
+    /\ st[e] = "delivering" /\ e \notin busy /\ e \notin passed
+    /\ passed' = passed \cup {e}
+    /\ UNCHANGED <<called, st, taskDone, delivered, busy, emitDone, rc, fired, q, gq>>
+
+\* ... its awaitable completes, scatter releases
 Release(e) ==
     /\ st[e] = "delivering" /\ e \notin busy
+    /\ passed' = passed \cup {e}
     /\ st' = [st EXCEPT ![e] = "done"]
     /\ rc' = [rc EXCEPT ![e] = @ - 2]
     /\ fired' = IF rc[e] - 2 <= 0 THEN Append(fired, e) ELSE fired
-    /\ UNCHANGED <<called, taskDone, delivered, busy, emitDone, q>>
+    /\ UNCHANGED <<called, taskDone, delivered, busy, emitDone, q, gq>>
 
 \* the producer's awaitable: scatter.update returns when everything up to the next buffering node has taken the element
 EmitDone(e) == /\ (IF Buffered THEN st[e] \notin {"none", "scattering"} ELSE st[e] = "done")
                /\ ~emitDone[e] /\ emitDone' = [emitDone EXCEPT ![e] = TRUE]
-               /\ UNCHANGED <<called, st, taskDone, delivered, busy, rc, fired, q>>
+               /\ UNCHANGED <<called, st, taskDone, delivered, busy, rc, fired, q, gq, passed>>
 
-Next == \E e \in Elems : EmitCall(e) \/ ScatterDone(e) \/ HandOver(e) \/ TaskFinish(e) \/ GatherDone(e) \/ ConsumerDone(e) \/ Release(e) \/ EmitDone(e)
+Next == \E e \in Elems : EmitCall(e) \/ ScatterDone(e) \/ HandOver(e) \/ TaskFinish(e) \/ GatherDone(e) \/ ConsumerDone(e) \/ PassTurn(e) \/ Release(e) \/ EmitDone(e)
 Spec == Init /\ [][Next]_vars
 FairSpec == Spec /\ \A e \in Elems : WF_vars(EmitCall(e)) /\ WF_vars(ScatterDone(e)) /\ WF_vars(HandOver(e)) /\ WF_vars(TaskFinish(e)) /\ WF_vars(GatherDone(e))
-                                     /\ WF_vars(ConsumerDone(e)) /\ WF_vars(Release(e)) /\ WF_vars(EmitDone(e))
+                                     /\ WF_vars(ConsumerDone(e)) /\ WF_vars(PassTurn(e)) /\ WF_vars(Release(e)) /\ WF_vars(EmitDone(e))
 
 ----------------------------------------------------------------------------
 \* C20: the same results as the local pipeline: each element exactly once ...
@@ -97,6 +112,8 @@ Lossless == Quiescent => Len(delivered) = called
 \* (guaranteed for producers that await their emits; with fire-and-forget producers not even the scatter
 \* calls are ordered)
 SameOrder == \A i, j \in 1 .. Len(delivered) : i < j => delivered[i] < delivered[j]
+\* whatever the producer does, gather passes results on in the order in which the futures reached it
+CallOrder == \A i \in 1 .. Len(delivered) : delivered[i] = gq[i]
 AllDelivered == <>(Len(delivered) = NE)
 \* reference counters balanced as in the local pipeline
 CbSafe == \A i \in 1 .. Len(fired) : st[fired[i]] = "done"
